@@ -654,6 +654,9 @@ def _split_msh(content):
         if len(seps) > len(set(seps)):
             raise InvalidEncodingChars("Found duplicate encoding chars")
 
+        if any(c.isspace() for c in seps):
+            raise InvalidEncodingChars("Found white space among the encoding chars")
+
         try:
             comp_sep, rep_sep, escape, sub_sep = seps
             trunc_sep = None
